@@ -1,6 +1,8 @@
 package main
 
 import (
+	"fmt"
+	"strings"
 	"verif/engine/sym"
 
 	"github.com/AdguardTeam/urlfilter/rules"
@@ -48,6 +50,13 @@ func init() {
 		},
 		Prepare: func(rc *RunCtx) error {
 			// the real classification of every trimmed line over {a, #, space} up to 6 bytes
+			for _, n := range []int{65, 4090, 4096, 4101, 5000} {
+				if r, err := rules.NewRule(strings.Repeat("a", n), 1); err != nil || r == nil {
+					return fmt.Errorf("a run of %d 'a' is not a rule for the real parser", n)
+				} else if _, ok := r.(*rules.NetworkRule); !ok {
+					return fmt.Errorf("a run of %d 'a' is not a network rule for the real parser", n)
+				}
+			}
 			tab := map[string]uint64{}
 			var rec func(s string)
 			rec = func(s string) {
